@@ -61,6 +61,7 @@ def run(ctx):
     c.ob("R2", ok, sched, "delay-resolved-at-entry", "named / computed delays are resolved when the state's tasks are armed (at entry)" if ok else
          "_schedule_state_tasks no longer resolves the delay through _resolve_delay for each after-key", sched.node)
     shared.eligible_bucket_rules(ctx, "R8", "after")
+    shared.task_registry_ownership(ctx, "R10")
     # ---- R9 sync engine: leaving a state cancels exactly that state's timers; an expired timer fires only if it was not
     #         cancelled, the interpreter is running and the owner is still active ---------------------------------------
     from sa.util import canon_atom as _ca
